@@ -15,7 +15,15 @@ HDR = {'SE': 'ST', 'GE': 'GS', 'IEA': 'ISA'}
 
 
 def fmt_id(k, i):
+    if not isinstance(i, int):
+        return {'ISA': (i * 9)[:9], 'GS': i, 'ST': i}[k]       # a non-numeric control number
     return {'ISA': '%09d' % i, 'GS': '%d' % i, 'ST': '%04d' % i}[k]
+
+
+def numeq(oid):
+    """a different text with the same numeric reading (or, for a non-numeric id, simply a different text)"""
+    z = oid.lstrip('0')
+    return z if (z and z != oid) else '0' + oid
 
 
 def summary(segs):
@@ -56,6 +64,10 @@ def materialise(hist):
             oid = own[-1][1] if own else fmt_id(HDR[k], 1)
             if ev[2] == 'other':
                 oid = fmt_id(HDR[k], 7)
+            elif ev[2] == 'numeq':
+                oid = numeq(oid)
+            elif ev[2] == 'alpha':
+                oid = 'B' if oid != 'B' else 'C'
             segs.append([k, cnt, oid])
     return segs
 
@@ -76,6 +88,16 @@ def alphabet_lx_narrow():
     """deep, narrow: several groups / sets / claims with service lines (LX numbering across GE/GS, SE/ST, CLM)"""
     return [('GS', 1), ('GS', 2), ('ST', 1), ('ST', 2), ('CLM',), ('LX', '1'), ('LX', '2'),
             ('SE', 'ok', 'own'), ('GE', 'ok', 'own'), ('IEA', 'ok', 'own')]
+
+
+def alphabet_ids():
+    """control numbers as TEXT: numeric and non-numeric header ids, trailers that repeat the id, write the same
+    number differently (17 / 017), or carry another non-numeric text"""
+    evs = [('GS', 1), ('GS', 'A'), ('ST', 1), ('ST', 'A'), ('X',)]
+    for k in ('SE', 'GE', 'IEA'):
+        for i in ('own', 'numeq', 'alpha'):
+            evs.append((k, 'ok', i))
+    return evs
 
 
 def alphabet(thorough):
@@ -193,6 +215,10 @@ def expand_narrow(hist):
     return _expand(hist, False, NARROW)
 
 
+def expand_ids(hist):
+    return _expand(hist, False, IDS)
+
+
 def expand_lx_narrow(hist):
     return _expand(hist, True, LXNARROW)
 
@@ -201,6 +227,7 @@ LXNARROW = alphabet_lx_narrow()
 
 
 NARROW = alphabet_narrow()
+IDS = alphabet_ids()
 
 
 def _expand(hist, lx, alpha=None):
@@ -229,9 +256,11 @@ def run(R):
     s3 = bfs.search(R, expand_narrow, [[]], d_narrow, 'narrow', max_states=3000000)
     d_lxn = 8 if R.thorough else 6
     s4 = bfs.search(R, expand_lx_narrow, [[]], d_lxn, 'lx', max_states=3000000)
-    R.cov['searches'] = [s1, s2, s3, s4]
-    R.bounds = {'alphabet': len(ALPHA), 'depth_lx': d_lx, 'depth_nolx': d_nolx, 'depth_narrow': d_narrow, 'narrow_alphabet': len(NARROW), 'depth_lx_narrow': d_lxn, 'lx_narrow_alphabet': len(LXNARROW),
-                'events': 'ISA/GS/ST with id 1|2, body, CLM, LX 1|2, HL n in 1..3 x parent in {none,1,2,x}, SE/GE/IEA x count {true,true+1,x,empty,bare} x id {own,other}'}
+    d_ids = 7 if R.thorough else 6
+    s5 = bfs.search(R, expand_ids, [[]], d_ids, 'ids', max_states=3000000)
+    R.cov['searches'] = [s1, s2, s3, s4, s5]
+    R.bounds = {'alphabet': len(ALPHA), 'depth_lx': d_lx, 'depth_nolx': d_nolx, 'depth_narrow': d_narrow, 'narrow_alphabet': len(NARROW), 'depth_lx_narrow': d_lxn, 'lx_narrow_alphabet': len(LXNARROW), 'depth_ids': d_ids, 'ids_alphabet': len(IDS),
+                'events': 'ISA/GS/ST with id 1|2, body, CLM, LX 1|2, HL n in 1..3 x parent in {none,1,2,x}, SE/GE/IEA x count {true,true+1,x,empty,bare} x id {own,other}; ids search: GS/ST with id 1|A, SE/GE/IEA x id {own, same number written differently, other non-numeric text}'}
     R.assumptions = ['HL/LX verdicts are not compared outside a transaction set, after the first HL parent error of a set, or for LX before any CLM (left open by the statement)',
                      'states are merged on (reader attributes, reference bookkeeping); histories are replayed on a fresh reader for every transition']
     return R.finish(LEVEL, 'BFS over segment histories; distinct = (nesting, last segment id, expected error codes)', exhaustive=True)
